@@ -160,7 +160,7 @@ def argmin(ctx, R):
     R.saw(f)
     loops = [n for n in f.node.body if isinstance(n, (ast.For, ast.While))]
     if len(loops) != 1 or not isinstance(loops[0], ast.For):
-        R.bad("VPSC.ARGMIN", f.qual + "|scan", where(f), "mostViolated is not a single scan over the inactive list")
+        R.undecided("VPSC.ARGMIN", f.qual + "|scan", where(f), "mostViolated is not a single scan over the inactive list: the arg-min recogniser does not apply")
         return
     lp = loops[0]
     ev = new_eval(P, inline_filter=lambda fn: fn.qual != "vpsc.Constraint.slack")
